@@ -39,11 +39,14 @@ def split(case):
     return pk, tr, rs, dc
 
 
-def phase_entry(ns, case):
+DTYPES = [np.float64, np.int64, np.float32, np.int16]
+
+
+def phase_entry(ns, case, dtype=np.float64):
     from bycycle.cyclepoints import extrema_interpolated_phase
     pk, tr, rs, dc = split(case)
     try:
-        pha = extrema_interpolated_phase(np.zeros(ns), np.array(pk, dtype=int), np.array(tr, dtype=int),
+        pha = extrema_interpolated_phase(np.zeros(ns, dtype=dtype), np.array(pk, dtype=int), np.array(tr, dtype=int),
                                          None if rs is None else np.array(rs, dtype=int), None if dc is None else np.array(dc, dtype=int))
         if len(pha) != ns:
             return [0, -1] * ns, [-2] * (ns + 5)
@@ -59,8 +62,8 @@ def phase_entry(ns, case):
 def _chunk(args):
     ns, cases = args
     out, codes = [], []
-    for c in cases:
-        a, b = phase_entry(ns, c)
+    for k, c in enumerate(cases):
+        a, b = phase_entry(ns, c, DTYPES[(k + len(c[0])) % len(DTYPES)])      # the signal only lends its length: its dtype must not matter
         out.extend(a)
         codes.extend(b)
     return [(out, codes)]
